@@ -917,3 +917,5 @@ def _run(world: World, plan):
     sig = ['default' if plan.get('chain') is None else ''.join(chain), per, min(flags['window'], 2), min(flags['numbered'], 3), pre_classes,
            sorted({v['invariant'] for v in world.violations})]
     return common.finish(world, nontrivial, sig)
+
+INFO['rule'] += ' Round-5 additions: file names of 250..255 bytes (their numbered duplicates do not fit), three equally named downloads.'
